@@ -31,8 +31,9 @@ CHECKS = {
         note="Trusted: Go's race detector (sees only accesses that execute; happens-before through sync.Pool inside fmt/encoding/json can hide a race as in any Go program), the hidden-handoff construction of DESIGN.md §2.7, testing/synctest.",
         ref="DESIGN.md §2.7, §4 C16"),
     "C17": dict(
-        text="Generated sequences of ReadBytes / Read / Write on the ReadWriterContext obtained through Connection.Upgrade (simulated stream, and the real PipeCon over simulated stdio pipe ends) or as Call.Conn inside a handler; contexts live / cancelled by a canceller task at a generated instant (before the call, blocked with nothing in flight, mid-frame, tie with completion) / with a deadline on the simulated clock / serving context cancelled; peer writes a known stream in generated pieces; writers block on tiny pipes. Oracles: operation returns at the very simulated instant its context is done, with a context/timeout error or success; no helper task left at quiescence; live-context operations never fail; received bytes = the peer's stream with at most one contiguous gap per cancelled read, never extending past what was written when it returned; wire bytes = written data (prefix for cancelled writes).",
-        technique=DST + "context cancellation/deadline instants as seeded kernel events, exact zero-latency unblocking oracle, stream-continuity oracle",
+        text="Generated sequences of ReadBytes / Read / Write on the ReadWriterContext obtained through Connection.Upgrade (simulated stream, and the real PipeCon over simulated stdio pipe ends) or as Call.Conn inside a handler; contexts live / cancelled by a canceller task at a generated instant (before the call, blocked with nothing in flight, mid-frame, tie with completion) / with a deadline on the simulated clock / serving context cancelled; peer writes a known stream in generated pieces; writers block on tiny pipes. Oracles: operation returns at the very simulated instant its context is done, with a context/timeout error or success; no helper task left at quiescence; live-context operations never fail; received bytes = the peer's stream with at most one contiguous gap per cancelled read, never extending past what was written when it returned; wire bytes = written data (prefix for cancelled writes). A second leg, NOT simulated, runs seeded cancellation histories over the four real transports (filesystem / abstract unix, tcp, bridge subprocess): the descriptor-level behaviour of the deadline trick (os/exec pipe ends, socket files) has no seam.",
+        technique=DST + "context cancellation/deadline instants as seeded kernel events, exact zero-latency unblocking oracle, stream-continuity oracle; plus a real-transport leg (not simulated) with a released-after-return peer",
+        note="Trusted: the simulator's transport model, testing/synctest. The real-transport leg trusts wall-clock bounds that are three orders of magnitude wider than the expected latency (5 s late, 20 s stuck) and re-executes a violating history twice before reporting it.",
         ref="DESIGN.md §4 C17"),
     "C18": dict(
         text="A peer writes NUL-terminated frames followed by raw payload, cut so that payload shares a segment with the preceding frame; the consumer mixes ReadBytes(0) and Read of 1..8192 bytes in generated order, client side through Upgrade's object and service side through Call.Conn. Oracle: concatenation of everything returned = the exact prefix of the stream; a satisfiable read never stays blocked at quiescence.",
